@@ -28,30 +28,27 @@ func (f *Expand) Init(*onnx.NodeProto) error {
 func (f *Expand) Apply(inputs []tensor.Tensor) ([]tensor.Tensor, error) {
 	input := inputs[0]
 
-	shape, err := ops.AnyToIntSlice(inputs[1].Data())
+	shape, err := ops.AnyToIntSlice(ops.IfScalarToSlice(inputs[1].Data()))
 	if err != nil {
 		return nil, err
 	}
 
-	// If the new shape has more dimensions than the input tensor, we
-	// need to prepend some dimensions to the input tensor shape.
-	if len(shape) > len(input.Shape()) {
-		input, err = ops.AddExtraDimsToTensor(input, len(shape)-len(input.Shape()))
-		if err != nil {
-			return nil, err
+	for _, dim := range shape {
+		if dim <= 0 {
+			return nil, ops.ErrInvalidInput("shape must only contain positive dimensions", f)
 		}
 	}
 
-	for axis := len(shape) - 1; axis >= 0; axis-- {
-		if input.Shape()[axis] != shape[axis] {
-			input, err = tensor.Repeat(input, axis, shape[axis])
-			if err != nil {
-				return nil, err
-			}
-		}
+	// Expanding is broadcasting the input against a tensor of the requested shape, according
+	// to the (multidirectional) broadcasting rules of ONNX.
+	target := tensor.New(tensor.WithShape(shape...), tensor.Of(input.Dtype()))
+
+	expanded, _, err := ops.MultidirectionalBroadcast(input, target)
+	if err != nil {
+		return nil, err
 	}
 
-	return []tensor.Tensor{input}, nil
+	return []tensor.Tensor{expanded}, nil
 }
 
 // ValidateInputs validates the inputs that will be given to Apply for this operator.
